@@ -22,7 +22,7 @@ func TestConcurrent(t *testing.T) {
 		return
 	}
 	n := 0
-	vk.Rapid(u, vk.N(2, 40), nil, c01x.DrawBatch, func(b c01x.BatchCase) *vk.Finding {
+	vk.Rapid(u, vk.N(2, 40), nil, c01x.DrawBatchECMA, func(b c01x.BatchCase) *vk.Finding {
 		n++
 		// validators on, so that regex- and multipleOf-validated values (global tables) take part
 		out := c01x.RunBatchOut(u, fmt.Sprintf("b%d", n), b.Specs, "RunConcurrent", true)
